@@ -360,6 +360,8 @@ class LabeledDirectedGraph {
         Edges(const LabeledDirectedGraph<EdgeLabel> &graph) : graph(graph) {}
 
         constEdgeIterator begin() const {
+            if (graph.getSize() == 0)
+                return end();
             VertexIndex endVertex = getEndVertex(graph);
 
             VertexIndex vertexWithFirstEdge = 0;
@@ -375,6 +377,10 @@ class LabeledDirectedGraph {
             return constEdgeIterator(graph, vertexWithFirstEdge, neighbour);
         }
         constEdgeIterator end() const {
+            if (graph.getSize() == 0)
+                return constEdgeIterator(
+                    graph, 0, Successors::const_iterator()
+                );
             VertexIndex endVertex = getEndVertex(graph);
             return constEdgeIterator(
                 graph, endVertex, graph.getOutNeighbours(endVertex).end()
